@@ -323,3 +323,34 @@ Proof.
   cbn [forallb] in H. apply andb_prop in H as [Hx Hr].
   cbn [map]. rewrite (store_load nm s Hok Hx). f_equal. apply IH. exact Hr.
 Qed.
+
+(* ------------------------------------------------------------------ several configurations per file *)
+Theorem ctu_blocks_roundtrip : forall nm cs, nm_ok nm -> forallb safe_ctu cs = true ->
+    load_ctu_blocks nm (map (ctu_to_xml nm) cs) = ctu_merge cs.
+Proof.
+  intros nm cs Hok H. unfold load_ctu_blocks. f_equal. rewrite map_map.
+  induction cs as [|c cs IH]; [reflexivity|].
+  cbn [forallb] in H. apply andb_prop in H as [Hx Hr].
+  cbn [map]. rewrite (ctu_roundtrip nm c Hok Hx), (IH Hr). reflexivity.
+Qed.
+
+Theorem file_roundtrip : forall nm cfgs, nm_ok nm -> forallb safe_fsum cfgs = true ->
+    load_file nm (store_file nm cfgs) = cfgs.
+Proof.
+  intros nm cfgs Hok H. unfold load_file, store_file. rewrite map_map.
+  induction cfgs as [|s l IH]; [reflexivity|].
+  cbn [forallb] in H. apply andb_prop in H as [Hx Hr].
+  cbn [map]. rewrite (store_load nm s Hok Hx), (IH Hr). reflexivity.
+Qed.
+
+(* files = per-file lists of per-configuration summaries; in memory the whole-program analysis sees their concatenation *)
+Theorem wp_storage_independent_multicfg : forall nm depth warn (files : list (list fsum)), nm_ok nm ->
+    forallb (forallb safe_fsum) files = true ->
+    whole_program depth warn (concat (map (fun cfgs => load_file nm (store_file nm cfgs)) files))
+    = whole_program depth warn (concat files).
+Proof.
+  intros nm depth warn files Hok H. f_equal. f_equal.
+  induction files as [|f files IH]; [reflexivity|].
+  cbn [forallb] in H. apply andb_prop in H as [Hx Hr].
+  cbn [map]. rewrite (file_roundtrip nm f Hok Hx), (IH Hr). reflexivity.
+Qed.
